@@ -359,6 +359,10 @@ class Evidence(object):
         self.notes = []
         self.extra = {}
         self.exhaustive = None
+        # replay/<ID>/ holds the failures of the latest run only
+        rd = os.path.join(os.environ.get("VERIF_REPLAY_DIR", os.path.join(VERIF, "replay")), prop)
+        if os.path.isdir(rd):
+            shutil.rmtree(rd, ignore_errors=True)
 
     def add_stats(self, st):
         """Merge the stats JSON written by a harness process."""
